@@ -362,6 +362,26 @@ func (e *integEngine) checkC01Integ(x *integExpect) {
 				}
 				dex := e.execsOf(e.stageTask(d))
 				want := x.task[e.stageTask(d)]
+				if len(dex) == 0 && want != nil && want.Failed && len(want.Seq) == 0 {
+					// the dependency failed before it could run anything (its execution context did
+					// not come up); with allow_failure on the stage its dependants go on: finished
+					// is then "its Run returned" - the context's up commands have ended
+					if d.Allow {
+						upEnd := -1
+						for _, r := range e.execsOf("ctx:" + e.w.Task(e.stageTask(d)).Context) {
+							if r.Info.Block == "up" && (r.EndSeq < 0 || r.EndSeq > upEnd) {
+								upEnd = r.EndSeq
+								if r.EndSeq < 0 {
+									upEnd = 1 << 30
+								}
+							}
+						}
+						if first < upEnd {
+							c.Violate("C01", "start-before-dep-real-runner", "stage %s started its first command (seq %d) while the start-up of the context of its dependency %s was still running (seq %d)", s.Name, first, d.Name, upEnd)
+						}
+						continue
+					}
+				}
 				if len(dex) == 0 {
 					c.Violate("C01", "start-before-dep-real-runner", "stage %s started its first command (seq %d) although its dependency %s has executed nothing", s.Name, first, d.Name)
 					continue
